@@ -38,8 +38,11 @@ Record platform := mkPlatform {
   p_login : list nat;                (* modes the device can be in at login *)
   p_cands : list nat;                (* levels register_configuration_session can add *)
   p_regs : list (list nat);          (* the key orders `privilege_levels` can take *)
-  p_reset_first : bool               (* ast fact: in acquire_priv's loop the belief is reset to DUMMY BEFORE the
+  p_reset_first : bool;              (* ast fact: in acquire_priv's loop the belief is reset to DUMMY BEFORE the
                                         _escalate / _deescalate call (true for the code as it is); false = after it *)
+  p_reg_keeps : bool                 (* ast fact: register_configuration_session / _create_configuration_session /
+                                        update_privilege_levels (and what it calls) never assign _current_priv_level
+                                        (true for the code as it is); false = the belief is reset to DUMMY there *)
 }.
 
 Definition dummy_level := mkLevel None 0 0 0 false.
@@ -266,7 +269,8 @@ Definition run_op (P : platform) (s : state) (o : op) : state * list entry * res
       end
   | ORegister k =>
       if mem k (reg s) then (s, [], ValueErr)
-      else if mem k (p_cands P) then (mkSt (belief s) (generic s) (reg s ++ [k]) (mode s), [], Ok)
+      else if mem k (p_cands P)
+           then (mkSt (if p_reg_keeps P then belief s else None) (generic s) (reg s ++ [k]) (mode s), [], Ok)
       else (s, [], ValueErr)
   | OSetGeneric b =>
       (mkSt (if b then None else belief s) b (reg s) (mode s), [], Ok)
